@@ -146,7 +146,7 @@ class SmpteTimeCode(_HHMMSSTimeExpression):
                                           '(?P<ndf_s>[0-9]{2})',
                                           '(?P<ndf_f>[0-9]{2})'])
 
-  SMPTE_TIME_CODE_DF_PATTERN = '(:|;|.|,)'.join(['(?P<df_h>[0-9]{2})',
+  SMPTE_TIME_CODE_DF_PATTERN = r'(:|;|\.|,)'.join(['(?P<df_h>[0-9]{2})',
                                                  '(?P<df_m>[0-9]{2})',
                                                  '(?P<df_s>[0-9]{2})',
                                                  '(?P<df_f>[0-9]{2})'])
